@@ -88,10 +88,46 @@ def fn_code_hash(fn: Callable, salt: str = None, environment: bytes = None) -> s
     if hasattr(fn, "__code__"):
         code = getattr(fn, "__code__")  # type: code
         result = hash_if_code_object(code)
+        # Default parameter values are evaluated when the function is defined and are stored
+        # on the function object, not in its code object, so they must be hashed separately.
+        # Only values of types Memento can serialize are considered, as for global variables.
+        defaults = _serialize_defaults(fn)
+        if defaults:
+            sha256 = hashlib.sha256()
+            sha256.update(result.encode("utf-8"))
+            sha256.update(defaults.encode("utf-8"))
+            result = sha256.hexdigest()[0:16]
         return result
     else:
         # If we can't get the code for the function, then return the name of the function
         return repr(fn)
+
+
+def _serialize_defaults(fn: Callable) -> Optional[str]:
+    """
+    Canonical string for the default values of positional and keyword-only parameters of `fn`,
+    or `None` if it has none that Memento can serialize.
+
+    """
+
+    def serialize(value) -> Optional[str]:
+        if callable(value):
+            return None
+        try:
+            return json.dumps(MementoCodec.encode_arg(value), sort_keys=True)
+        except (TypeError, ValueError):
+            # not a type that Memento understands or can hash. Do not hash.
+            return None
+
+    positional = [serialize(v) for v in (getattr(fn, "__defaults__", None) or ())]
+    keyword_only = {
+        k: serialize(v) for k, v in (getattr(fn, "__kwdefaults__", None) or {}).items()
+    }
+    if not any(v is not None for v in positional) and not any(
+        v is not None for v in keyword_only.values()
+    ):
+        return None
+    return json.dumps([positional, keyword_only], sort_keys=True)
 
 
 def resolve_to_symbolic_names(
